@@ -1,5 +1,10 @@
 package main
 
+import (
+	"go/ast"
+	"strings"
+)
+
 // Shapes of MultiSource (C18): order of dependency windows and the main page, where the dependency token is
 // advanced relative to the emissions, the conditions of the back-dated first-hop query, the scope of the
 // final lookup.
@@ -20,6 +25,29 @@ func init() {
 			fd := mustFunc("internal/jobs/source/multi_source.go", "MultiSource", fn)
 			o.p("def skeleton_%s : List String := %s\n", fn, leanList(skeleton(fd.Body, calls, watch)))
 		}
+		// the arguments of the reads (limits, latest-only flags, scopes)
+		var args []string
+		for _, fn := range []string{"processDependency", "findChanges", "incrementalRead"} {
+			fd := mustFunc("internal/jobs/source/multi_source.go", "MultiSource", fn)
+			ast.Inspect(fd.Body, func(n ast.Node) bool {
+				if ce, ok := n.(*ast.CallExpr); ok {
+					f := oneLine(str(ce.Fun))
+					if suffixIn("GetChanges", "ProcessChanges", "GetEntityWithInternalID", "GetRelatedAtTime")(f) {
+						as := []string{}
+						for _, a := range ce.Args {
+							if _, isLit := a.(*ast.FuncLit); isLit {
+								as = append(as, "func")
+							} else {
+								as = append(as, oneLine(str(a)))
+							}
+						}
+						args = append(args, fn+": "+f+"("+strings.Join(as, ", ")+")")
+					}
+				}
+				return true
+			})
+		}
+		o.p("def readArgs : List String := %s\n", leanList(args))
 		b := mustFunc("internal/jobs/source/multi_source_dep_builder.go", "MultiSource", "DedupAndTrackImplicitDependencies")
 		o.p("def dedupAndTrack : List String := %s\n", leanList(topStatements(b)))
 		w := mustFunc("internal/server/dataset.go", "Dataset", "GetChangesWatermark")
